@@ -55,43 +55,77 @@ def value_matrix(c, norig):
     return [[v(r0, c0) for c0 in range(norig)] for r0 in range(c["n"])]
 
 
+def group_indices(c):
+    """Original 0-based positions of the group columns (must agree with CellCfg!GroupIdx)."""
+    ng = {"plain": 0, "pb2span": 2, "subpb": 2}.get(c["strat"], 1)
+    if ng == 0:
+        return []
+    p1 = group_pos(c)
+    if ng == 1:
+        return [p1]
+    norig = c["m"] + 2
+    return [p1, min(p1 + (2 if c.get("g2") == "apart" else 1), norig - 1)]
+
+
 def build(c, unpaginated=False):
     import polars as pl
     import rtflite as rtf
     n, m = c["n"], c["m"]
     dcols = ["~D%d~" % k for k in range(1, m + 1)]
-    has_g = c["strat"] != "plain"
-    cols = list(dcols)
-    if has_g:
-        cols.insert(group_pos(c), "~G~")
+    gidx = group_indices(c)
+    gnames = ["~G~", "~G2~"][:len(gidx)]
+    norig = m + len(gidx)
+    cols = []
+    di = 0
+    for pos in range(norig):
+        if pos in gidx:
+            cols.append(gnames[gidx.index(pos)])
+        else:
+            cols.append(dcols[di])
+            di += 1
     data = {}
     gi = 0
     gvals = []
     for r in range(n):
         if c["grp"][r]:
             gi += 1
-        gvals.append(("~S%d~" if c["strat"] == "subline" else "~P1.%d~") % gi)
+        gvals.append(gi)
     for k, x in enumerate(dcols):
         data[x] = [("d%03d" % (r + 1)) if k == 0 else "v%d" % (r + 1) for r in range(n)]
-    if has_g:
-        data["~G~"] = gvals
+    strat = c["strat"]
+    if strat == "subline":
+        data["~G~"] = ["~S%d~" % g for g in gvals]
+    elif strat == "subpb":
+        data["~G~"] = ["~S%d~" % g for g in gvals]
+        data["~G2~"] = ["~P1.1~"] * n
+    elif strat == "pb2span":
+        data["~G~"] = ["~P1.%d~" % g for g in gvals]
+        data["~G2~"] = ["~P2.%d~" % g for g in gvals]
+    elif strat != "plain":
+        data["~G~"] = ["~P1.%d~" % g for g in gvals]
     df = pl.DataFrame({x: data[x] for x in cols}, schema={x: pl.Utf8 for x in cols})
     kw = {c["attr"]: value_matrix(c, len(cols))}
     nrow = 1000
-    if c["strat"] == "plain":
+    if strat == "plain":
         nrow = 1000 if unpaginated else c["cap"]
-    elif c["strat"] == "pbnp":
+    elif strat == "pbnp":
         kw.update(page_by=["~G~"], new_page=not unpaginated, pageby_row="first_row")
-    elif c["strat"] == "pbcol":
+    elif strat == "pbcol":
         kw.update(page_by=["~G~"], new_page=True, pageby_row="column")
-    elif c["strat"] == "pbspan":
+    elif strat == "pbspan":
         kw.update(page_by=["~G~"], new_page=False)
-    elif c["strat"] == "subline":
+        nrow = 1000 if unpaginated else (c["cap"] if c["cap"] < 100 else 1000)
+    elif strat == "pb2span":
+        kw.update(page_by=["~G~", "~G2~"], new_page=False)
+        nrow = 1000 if unpaginated else (c["cap"] if c["cap"] < 100 else 1000)
+    elif strat == "subline":
         kw.update(subline_by=["~G~"])
+    elif strat == "subpb":
+        kw.update(subline_by=["~G~"], page_by=["~G2~"])
     body = rtf.RTFBody(**kw)
     doc = rtf.RTFDocument(df=df, rtf_page=rtf.RTFPage(nrow=nrow), rtf_body=body, rtf_title=None, rtf_column_header=[])
-    removed = c["strat"] in ("pbspan", "pbnp", "subline")
-    return doc, (len(cols) - 1 if (has_g and removed) else len(cols))
+    removed = strat in ("pbspan", "pbnp", "subline", "pb2span", "subpb")
+    return doc, (len(cols) - len(gidx) if removed else len(cols))
 
 
 def _cell_value(attr, doc, row, k, ncell):
@@ -211,7 +245,7 @@ def run_one(sc):
         doc, ndisp = build(c)
         text = doc.rtf_encode()
         obs = observe(text, c, ndisp)
-        if c["strat"] in ("plain", "pbnp"):
+        if c["strat"] in ("plain", "pbnp", "pbspan", "pb2span"):
             doc1, _ = build(c, unpaginated=True)
             obs1 = observe(doc1.rtf_encode(), c, ndisp)
         else:
